@@ -668,6 +668,12 @@ func (e *Engine) valueEq(a, b Value, t types.Type) Term {
 			return Eq(x, y.ID)
 		}
 	case VStr:
+		// a string is empty iff its length is 0 (whatever its data component holds)
+		if y := b.(VStr); y.T.S == "str_empty" {
+			return Eq(strLen(x), TZero)
+		} else if x.T.S == "str_empty" {
+			return Eq(strLen(y), TZero)
+		}
 		return Eq(x.T, b.(VStr).T)
 	case VPtr:
 		y := b.(VPtr)
